@@ -66,6 +66,10 @@ func RandomConfig(r *RNG) Config {
 		c.InitMeta = 4
 	}
 	c.Prealloc = c.MaxPages > 0 && r.Chance(30)
+	if c.MaxPages > 0 && r.Chance(20) {
+		// a configured limit that is no multiple of the page size: the file holds floor(limit/pageSize) pages
+		c.MaxSlack = uint64(1 + r.Intn(int(c.PageSize)-1))
+	}
 	return c
 }
 
@@ -89,11 +93,23 @@ func (s *Session) AccountCheck() {
 			s.fail("C11", "space", "page accounting broken: dataEnd=%d but 2+free(%d)+live(%d)+metaTotal(%d)=%d",
 				fs.DataEnd, fs.DataAvail, live, fs.MetaTotal, 2+fs.DataAvail+live+fs.MetaTotal)
 		}
+		if s.Cfg.MaxPages > 0 && !s.resized && s.boundPages == 0 {
+			if s.Cfg.MaxSlack > 0 {
+				s.mark("unaligned-max-size")
+			}
+			if fs.MaxPages != s.Cfg.MaxPages {
+				s.fail("C11", "max-pages", "the allocator works with %d pages, the configured max size %d (page size %d) allows %d", fs.MaxPages, s.Cfg.Options().MaxSize, fs.PageSize, s.Cfg.MaxPages)
+			}
+			if ext := uint64(s.Disk.MaxExtent); ext > s.Cfg.Options().MaxSize {
+				s.fail("C11", "extent", "file extent %d beyond the configured max size %d", ext, s.Cfg.Options().MaxSize)
+			}
+		}
 		if fs.MaxPages > 0 {
 			if fs.DataEnd > fs.MaxPages && !s.resized {
 				s.fail("C11", "end-beyond-max", "data end marker %d beyond max pages %d", fs.DataEnd, fs.MaxPages)
 			}
-			if ext := uint64(s.Disk.MaxExtent); ext > fs.MaxPages*fs.PageSize && !s.resized {
+			// (a preallocated file extends to the configured size, which need not be a multiple of the page size)
+			if ext := uint64(s.Disk.MaxExtent); ext > fs.MaxPages*fs.PageSize && ext > fs.MaxSize && !s.resized {
 				s.fail("C11", "extent", "file extent %d beyond max size %d", ext, fs.MaxPages*fs.PageSize)
 			}
 		}
